@@ -15,16 +15,18 @@ from ..core import HarnessError, Violation
 
 ID = "C03"
 LEVEL = "exploration"
-RULE = ("Hypothesis draws a SchemaSpec biased to containers with >=2 siblings (depth<=3) and a value "
-        "made from an independently built conforming value by 1-4 perturbation steps at drawn "
-        "positions (so several errors arise simultaneously in sibling members), or a spec-aware "
-        "near-miss, or an unrelated value. For every error of validate() and of the substitution "
-        "validator: (1) the path resolves from the root value to the very object reported, (2) the "
-        "stated fact is true of it, (3) the parameter reported is a declared constraint of a "
-        "sub-schema reachable along that path, (4) the message contains the independently rendered "
-        "path, (5) errors of exact/typed lists, dicts and aliases equal the union of their members' "
-        "errors with prefixed paths plus the container's own missing/extra errors. distinct = "
-        "canonical JSON of the case; non-trivial = an error at depth>=1 in a container with >=2 siblings")
+RULE = ("exhaustive part: float nodes with value + precision + a bound inside the value's rounding bucket against numbers "
+        "equal at that precision; required keys of odd kinds (None, 0, '', False, (), braces, dotted) missing at two "
+        "depths; missing elements at every index. Generated part: Hypothesis draws a SchemaSpec biased to containers with "
+        ">=2 siblings (depth<=3; members may be one shared object) and a value made from an independently built conforming "
+        "value by up to 4 spec-aware near-misses at different nodes, or 1-4 generic perturbation steps below the root, or "
+        "an unrelated value. For every error of validate() and of the substitution validator (also on the value with `...` "
+        "placeholders added to its lists): (1) the path resolves from the root value to the very object reported, (2) the "
+        "stated fact is true of it, (3) the parameter reported is declared at that position, (4) the message contains the "
+        "independently rendered path (also under Formatter('payload')), rendering changes neither the error nor a second "
+        "rendering, (5) errors of exact/typed lists, dicts and aliases equal the prefixed union of their members' errors "
+        "plus the container's own missing/extra errors. distinct = canonical JSON of the case; non-trivial = an error at "
+        "depth>=1 in a container with >=2 siblings")
 ASSUMPTIONS = ["dict keys in generated schemas are value-hashable (PathHolder deep-copies key operands)",
                "the order of errors is not asserted; for contains-lists any one window's errors are acceptable"]
 BUDGET = {"quick": (1500, 4), "thorough": (25000, 16)}
